@@ -162,6 +162,14 @@ func (x *Exec) callValue(st *State, fr *Frame, common *ssa.CallCommon, fnVal Val
 		}
 		c.name = "(" + stripGenerics(types.TypeString(recvT, nil)) + ")." + mname
 		c.args = append([]Value{iv}, args...)
+		if x.contract != nil && x.contract.Directives["abstract-calls"] != nil {
+			if msig, _ := common.Method.Type().(*types.Signature); msig != nil {
+				asig := types.NewSignatureType(types.NewVar(token.NoPos, nil, "self", recvT), nil, nil, msig.Params(), msig.Results(), msig.Variadic())
+				if x.abstractCallF(st, fr, c, mname, asig, true) {
+					return
+				}
+			}
+		}
 		if in, ok := x.lookupIntrinsic(c.name); ok {
 			x.oblige(st, "nil-deref", "method call on nil interface", Not(iv.Nil), common.Pos(), nil)
 			if !iv.Nil.IsFalse() {
@@ -373,6 +381,9 @@ func (x *Exec) dispatch(st *State, fr *Frame, c *callCtx) {
 			return
 		}
 	}
+	if x.contract != nil && x.contract.Directives["abstract-calls"] != nil && x.abstractCallF(st, fr, c, fn.Name(), fn.Signature, true) {
+		return
+	}
 	if in, ok := x.lookupIntrinsic(c.name); ok {
 		x.usedIntrinsic(c.name)
 		in(x, st, fr, c)
@@ -429,11 +440,26 @@ func (x *Exec) dispatch(st *State, fr *Frame, c *callCtx) {
 // or interface method called name: arbitrary result, heap untouched, the call recorded under its name
 // (calls("name"), callarg, callswith talk about it).
 func (x *Exec) abstractCall(st *State, fr *Frame, c *callCtx, name string, sig *types.Signature) bool {
+	return x.abstractCallF(st, fr, c, name, sig, false)
+}
+
+// abstractCallF: with forcedOnly only directives of the form "abstract-calls force <regexp>" apply; they take
+// precedence over the engine's intrinsics (used where a unit wants to talk about a call the engine would
+// otherwise model itself, e.g. the scheduler's Size in System.Done).
+func (x *Exec) abstractCallF(st *State, fr *Frame, c *callCtx, name string, sig *types.Signature, forcedOnly bool) bool {
 	if x.contract == nil || len(st.frames) == 0 || fr != st.frames[0] {
 		return false
 	}
 	for _, d := range x.contract.Directives["abstract-calls"] {
-		re, err := regexp.Compile(strings.TrimSpace(d))
+		d = strings.TrimSpace(d)
+		forced := strings.HasPrefix(d, "force ")
+		if forced {
+			d = strings.TrimSpace(strings.TrimPrefix(d, "force "))
+		}
+		if forcedOnly && !forced {
+			continue
+		}
+		re, err := regexp.Compile(d)
 		if err != nil || !re.MatchString(name) {
 			continue
 		}
